@@ -318,3 +318,5 @@ Example c17_user_error_witness :
   (m_panicked s, m_stuck s, m_emitted s, m_handled s, m_script s, m_evals s) =
   (false, false, [], [EIo 5 9], [Refuse 7 1], [XKey; XVal; XTagKey 0; XTagVal 0]).
 Proof. exact user_error_macro_witness. Qed.
+
+(* Note after the second read-only review of these pins (selftest/audit/REVIEW-2-2026-10-02.md): c17_process_app is a structural lemma (process_end copies the state run_process threads); the content is in c17_process_split / _split_other / _lifecycle. *)
